@@ -133,6 +133,7 @@ Fixpoint parse_block (fuel : nat) (blk : list byte) (o base : nat) (st : rst)
       else ([], st, Some (Corrupt W_PADDING (base + o1)))
     else if N.eqb ty T_SETCOMP then
       if rem1 <? len then ([], st, Some (Corrupt W_COMPTRUNC (base + o1)))
+      else if negb (list_eqb (crc ty (firstn len (skipn o1 blk))) c) then ([], st, Some (Corrupt W_CHECKSUM (base + o1)))
       else if Nat.eqb len 0 then parse_block f blk o1 base st
       else
         let cb := nth o1 blk 0%N in
